@@ -258,10 +258,14 @@ def member_call(em, n, cnode, obj, isarrow, args):
         et = ot.args[0]
         isset = ot.name == 'std::set'
         if name in VEC_SIMPLE and not real:
-            if name in ('front', 'back'): return '(*%s_%s(%s))' % (c, name, objp)
+            if name in ('front', 'back'):
+                if not isset and et.name == 'bool' and parse_type(em.qtype(n)).name != 'bool': return '%s_%s(%s)' % (c, name, objp)
+                return '(*%s_%s(%s))' % (c, name, objp)
             if name in ('cbegin', 'cend'): name = name[1:]
             return '%s_%s(%s)' % (c, name, objp)
         if name in ('operator[]', 'at') and len(real) == 1:
+            if not isset and et.name == 'bool' and parse_type(em.qtype(n)).name != 'bool':
+                return '%s_at(%s, %s)' % (c, objp, em.Eval(real[0]))      # proxy reference: pointer to the _Bool
             return '(*%s_at(%s, %s))' % (c, objp, em.Eval(real[0]))
         if name == 'push_back' and len(real) == 1:
             return '%s_push_back(%s, %s)' % (c, objp, value_arg(em, et, real[0]))
@@ -505,6 +509,17 @@ def free_call(em, n, rd, args):
         if name in ('sort', 'unique', 'adjacent_find', 'reverse', 'max_element', 'min_element') and len(real) == 2:
             em.vstd_req.setdefault('alg_%s_%s_%s' % (name, kind, en), ('alg', (name, kind, et)))
             return 'vstd_%s_%s_%s(%s, %s)' % (name, kind, en, em.Eval(real[0]), em.Eval(real[1]))
+        if name in ('unique', 'sort', 'find_if', 'remove_if', 'any_of', 'all_of', 'none_of', 'count_if') and len(real) == 3 and em.record_of(ts[2]) is not None and kind == 'vit':
+            # algorithm with a closure/functor predicate: operator() of the closure is extracted and called
+            rec = em.record_of(ts[2])
+            opc = [c for c in rec.get('inner', []) if c.get('kind') == 'CXXMethodDecl' and c.get('name') == 'operator()']
+            if len(opc) != 1: em.fail(n, 'predicate object without unique operator()')
+            cn = em.request_func(opc[0])
+            ps = em.params_of(opc[0])
+            byref = [em.canon(parse_type(p['type'].get('desugaredQualType') or p['type']['qualType'])).is_ref() for p in ps]
+            key = 'algp_%s_%s_%s' % (name, en, cn)
+            em.vstd_req.setdefault(key, ('algp', (name, kind, et, cn, byref, em.ctype(ts[2]))))
+            return 'vstd_%s_p_%s_%s(%s, %s, %s)' % (name, en, cn, em.Eval(real[0]), em.Eval(real[1]), em.Eval(real[2]))
         if name == 'distance' and len(real) == 2:
             return '%s_diff(%s, %s)' % (c, em.Eval(real[1]), em.Eval(real[0]))
         if name in ('next', 'prev'):
@@ -629,6 +644,7 @@ def gen_vstd(em):
             elif kind == 'arr': s, p, f = gen_arr(em, k, info)
             elif kind == 'alg': s, p, f = gen_alg(em, info)
             elif kind == 'transform': s, p, f = gen_transform(em, k, info)
+            elif kind == 'algp': s, p, f = gen_algp(em, info)
             elif kind == 'il': s, p, f = ('', '', '')
             else: raise Cxx2cError('vstd kind ' + kind)
             structs.append((k, s)); protos.append(p); funcs.append(f)
@@ -755,6 +771,7 @@ def gen_set(em, e):
     s = '''struct %(S)s { %(E)s *data; unsigned long size; unsigned long cap; };
 struct sit_%(en)s { struct %(S)s *s; unsigned long i; };
 struct sii_%(en)s { struct %(S)s *s; };
+struct rsit_%(en)s { struct %(S)s *s; unsigned long i; };
 struct %(S)s_insert_result { struct sit_%(en)s first; _Bool second; };''' % dict(S=S, E=E, en=en)
     f = '''
 #ifndef VSTD_CAP_%(S)s
@@ -772,6 +789,14 @@ struct sit_%(en)s sit_%(en)s_postinc(struct sit_%(en)s *it) { struct sit_%(en)s 
 %(E)s *sit_%(en)s_deref(struct sit_%(en)s it) { __CPROVER_assert(it.i < it.s->size, "vstd-bounds: set iterator dereference in range"); return &it.s->data[it.i]; }
 _Bool sit_%(en)s_eq(struct sit_%(en)s a, struct sit_%(en)s b) { return a.i == b.i; }
 _Bool sit_%(en)s_ne(struct sit_%(en)s a, struct sit_%(en)s b) { return a.i != b.i; }
+struct rsit_%(en)s %(S)s_rbegin(struct %(S)s *v) { struct rsit_%(en)s it; it.s = v; it.i = v->size; return it; }
+struct rsit_%(en)s %(S)s_rend(struct %(S)s *v) { struct rsit_%(en)s it; it.s = v; it.i = 0; return it; }
+struct rsit_%(en)s *rsit_%(en)s_inc(struct rsit_%(en)s *it) { it->i--; return it; }
+struct rsit_%(en)s *rsit_%(en)s_dec(struct rsit_%(en)s *it) { it->i++; return it; }
+struct rsit_%(en)s rsit_%(en)s_postinc(struct rsit_%(en)s *it) { struct rsit_%(en)s o = *it; it->i--; return o; }
+%(E)s *rsit_%(en)s_deref(struct rsit_%(en)s it) { __CPROVER_assert(it.i >= 1 && it.i <= it.s->size, "vstd-bounds: reverse set iterator dereference in range"); return &it.s->data[it.i - 1]; }
+_Bool rsit_%(en)s_eq(struct rsit_%(en)s a, struct rsit_%(en)s b) { return a.i == b.i; }
+_Bool rsit_%(en)s_ne(struct rsit_%(en)s a, struct rsit_%(en)s b) { return a.i != b.i; }
 /* position of the first element not less than x */
 unsigned long %(S)s_lower(struct %(S)s *v, %(E)s *b) {
   unsigned long p = 0;
@@ -945,6 +970,50 @@ def gen_alg(em, info):
 ''' % d
     else:
         raise Cxx2cError('vstd: algorithm %s not modelled' % name)
+    return '', _protos_of(f), f
+
+def gen_algp(em, info):
+    name, kind, e, cn, byref, PT = info
+    en = em.elemname(e); E = em.ctype(e)
+    IT = 'struct vit_%s' % en
+    def arg(i, x): return ('&' + x) if byref[i] else x
+    d = dict(IT=IT, E=E, en=en, cn=cn, PT=PT)
+    if name == 'unique':
+        d['call'] = '%s(&p, %s, %s)' % (cn, arg(0, 'f.v->data[w]'), arg(1, 'f.v->data[k]'))
+        f = '''%(IT)s vstd_unique_p_%(en)s_%(cn)s(%(IT)s f, %(IT)s l, %(PT)s p) {
+  __CPROVER_assert(f.i <= l.i && l.i <= f.v->size, "vstd-bounds: unique range in range");
+  if (f.i == l.i) return l;
+  unsigned long w = f.i;
+  for (unsigned long k = f.i + 1; k < l.i; k++) { if (!(%(call)s)) { w++; f.v->data[w] = f.v->data[k]; } }
+  f.i = w + 1; return f; }
+''' % d
+    elif name == 'sort':
+        d['call'] = '%s(&p, %s, %s)' % (cn, arg(0, 'x'), arg(1, 'f.v->data[s - 1]'))
+        f = '''void vstd_sort_p_%(en)s_%(cn)s(%(IT)s f, %(IT)s l, %(PT)s p) {
+  __CPROVER_assert(f.i <= l.i && l.i <= f.v->size, "vstd-bounds: sort range in range");
+  for (unsigned long i = f.i + 1; i < l.i; i++) {
+    %(E)s x = f.v->data[i]; unsigned long j = i; _Bool go = 1;
+    for (unsigned long s = i; s > f.i; s--) { if (go && (%(call)s)) { f.v->data[s] = f.v->data[s - 1]; j = s - 1; } else { go = 0; } }
+    f.v->data[j] = x; } }
+''' % d
+    elif name == 'find_if':
+        d['call'] = '%s(&p, %s)' % (cn, arg(0, 'f.v->data[k]'))
+        f = '''%(IT)s vstd_find_if_p_%(en)s_%(cn)s(%(IT)s f, %(IT)s l, %(PT)s p) {
+  %(IT)s r = l; _Bool found = 0;
+  __CPROVER_assert(f.i <= l.i && l.i <= f.v->size, "vstd-bounds: find_if range in range");
+  for (unsigned long k = f.i; k < l.i; k++) { if (!found && (%(call)s)) { found = 1; r.i = k; } }
+  return r; }
+''' % d
+    elif name == 'remove_if':
+        d['call'] = '%s(&p, %s)' % (cn, arg(0, 'f.v->data[k]'))
+        f = '''%(IT)s vstd_remove_if_p_%(en)s_%(cn)s(%(IT)s f, %(IT)s l, %(PT)s p) {
+  unsigned long w = f.i;
+  __CPROVER_assert(f.i <= l.i && l.i <= f.v->size, "vstd-bounds: remove_if range in range");
+  for (unsigned long k = f.i; k < l.i; k++) { if (!(%(call)s)) { f.v->data[w] = f.v->data[k]; w++; } }
+  f.i = w; return f; }
+''' % d
+    else:
+        raise Cxx2cError('vstd: algorithm %s with predicate not modelled' % name)
     return '', _protos_of(f), f
 
 def gen_transform(em, key, info):
